@@ -21,33 +21,113 @@ inductive Tok where
 /-- a path: its steps, and whether it ends in an abort -/
 abbrev SkelPath := List Tok × Bool
 
+/-! ## the control structure of a program, without its semantics -/
+
+/-- what `Prog.paths` looks at: the steps and the control structure (`NA/Model/IosSessionProg.lean`
+`Prog.shape` forgets the semantics of the leaves and applies every continuation to a default value) -/
+inductive Shape where
+  | stmt (tok : String)
+  | abort (tok : String)
+  | quiet
+  | seq (a b : Shape)
+  | ite (watch : Option String) (t e : Shape)
+  | defer_ (d body : Shape)
+  | closure (body : Shape)
+  | range (body : Shape)
+  | loop (body : Shape)
+  deriving Repr
+
+/-- a step of a deferred call -/
+def asDeferred : Tok → Tok
+  | .atom (.step s) => .atom (.deferred s)
+  | t => t
+
+def toAtoms : List Tok → List Atom
+  | [] => []
+  | .atom a :: r => a :: toAtoms r
+  | .range _ :: r => .step "?nested-range" :: toAtoms r
+
+/-- the set of acyclic paths of interaction steps -/
+def Shape.paths : Shape → List SkelPath
+  | .stmt tok => [([.atom (.step tok)], false)]
+  | .abort tok => [([.atom (.step tok)], true)]
+  | .quiet => [([], false)]
+  | .seq a b =>
+    (paths a).flatMap fun x => if x.2 then [x] else (paths b).map fun y => (x.1 ++ y.1, y.2)
+  | .ite watch t e =>
+    let mark (v : Bool) : List Tok := match watch with
+      | some n => [.atom (.cond n v)]
+      | none => []
+    (paths t).map (fun a => (mark true ++ a.1, a.2)) ++ (paths e).map (fun a => (mark false ++ a.1, a.2))
+  | .defer_ d body =>
+    (paths body).flatMap fun a => (paths d).map fun dp => (a.1 ++ dp.1.map asDeferred, a.2)
+  | .closure body => paths body
+  | .range body => [([.range ((paths body).map fun a => (toAtoms a.1, a.2))], false)]
+  | .loop body => paths body
+
+/-! ## comparison through an atom table
+
+The regenerated side lists its atoms once (`atomTable`) and writes its paths over the INDICES; the
+paths of the Lean program are translated through the same table (an atom that is not in the table gets
+the index `table.length`, which no regenerated path uses) and the two sets are compared as sets of
+number lists: the kernel compares strings only while translating, not while searching. -/
+
+/-- a token over atom indices -/
+inductive CTok where
+  | atom (n : Nat)
+  | range (body : List (List Nat × Bool))
+  deriving DecidableEq, Repr
+
+abbrev CPath := List CTok × Bool
+
 /-- the body of a `range` loop: a set of paths -/
-abbrev Body := List (List Atom × Bool)
+abbrev CBody := List (List Nat × Bool)
 
-def bodyEq (a b : Body) : Bool := a.all (b.contains ·) && b.all (a.contains ·)
+def codeAtom (tbl : List Atom) (a : Atom) : Nat := tbl.idxOf a
 
-def bodiesOf (ps : List SkelPath) : List Body :=
+def codeTok (tbl : List Atom) : Tok → CTok
+  | .atom a => .atom (codeAtom tbl a)
+  | .range b => .range (b.map fun p => (p.1.map (codeAtom tbl), p.2))
+
+def codePath (tbl : List Atom) (p : SkelPath) : CPath := (p.1.map (codeTok tbl), p.2)
+
+def bodyEq (a b : CBody) : Bool := a.all (b.contains ·) && b.all (a.contains ·)
+
+def bodiesOf (ps : List CPath) : List CBody :=
   ps.flatMap fun p => p.1.filterMap fun t => match t with
     | .range b => some b
     | _ => none
 
 /-- a path with the bodies of its `range` loops blanked -/
-def stripBodies (p : SkelPath) : SkelPath :=
+def stripBodies (p : CPath) : CPath :=
   (p.1.map fun t => match t with
     | .range _ => .range []
     | t => t, p.2)
 
-/-- Equality of two path lists as sets, the bodies of `range` loops being sets themselves.  Decided by a
-sufficient condition that is cheap to evaluate: the lists are equal as sets once the loop bodies are
-blanked, AND all loop bodies that occur on either side are one and the same set (true for the
-functions compared here: one `range` loop; a function with two different loops would need a
+/-- Equality of two coded path lists as sets, the bodies of `range` loops being sets themselves.
+Decided by a sufficient condition that is cheap to evaluate: the lists are equal as sets once the loop
+bodies are blanked, AND all loop bodies that occur on either side are one and the same set (true for
+the functions compared here: one `range` loop; a function with two different loops would need a
 position-wise comparison — the check would fail, not pass wrongly). -/
-def sameSet (a b : List SkelPath) : Bool :=
+def sameSetN (a b : List CPath) : Bool :=
   let sa := a.map stripBodies
   let sb := b.map stripBodies
   sa.all (sb.contains ·) && sb.all (sa.contains ·) &&
   match (bodiesOf a ++ bodiesOf b).eraseDups with
   | [] => true
   | r :: rest => rest.all (bodyEq r)
+
+/-- every index used by the regenerated paths is an index of the table -/
+def indicesOK (n : Nat) (g : List CPath) : Bool :=
+  g.all fun p => p.1.all fun t => match t with
+    | .atom k => k < n
+    | .range b => b.all fun q => q.1.all (· < n)
+
+/-- the table has no duplicates: the translation is injective on the atoms of the table -/
+def tableOK (tbl : List Atom) : Bool := tbl.eraseDups.length == tbl.length
+
+/-- **the comparison**: `g` (regenerated, over `tbl`) and `m` (paths of the Lean program) are the same set -/
+def sameSet (tbl : List Atom) (g : List CPath) (m : List SkelPath) : Bool :=
+  tableOK tbl && indicesOK tbl.length g && sameSetN g (m.map (codePath tbl))
 
 end NA.Ios
